@@ -238,6 +238,9 @@ func genM3Tags(r *mon.Rand) map[string]string {
 		return map[string]string{"a": "d", "c": "b"}
 	}
 	n := r.Range(1, 8)
+	if r.Chance(1, 4) {
+		n = r.Range(9, 24) // beyond the pooled tag slices' initial capacity and the compact short-list form
+	}
 	t := make(map[string]string, n)
 	for i := 0; i < n; i++ {
 		k := genBytes(r, 12)
